@@ -4,5 +4,282 @@ From P9 Require Import Base.Res Model.Path Model.Cfs.
 Import ListNotations.
 Open Scope N_scope.
 
-Lemma clunk_forward msize next e ans : fst (fst (do_op msize next (OClunk e) ans)) = Some (SClunk (c_fid e)).
-Proof. reflexivity. Qed.
+(* ---- vocabulary of the statements ---- *)
+
+(* the session call an operation has to issue, written from the property text: the
+   corresponding call, on the entry's own fid; a fresh fid (the allocator's next) for
+   the root of Attach and the target of Walk; the normalised names for Walk; nothing
+   when the layer refuses locally (invalid walk path, Create's name / non-directory test,
+   an AuthFile that is not the layer's own) *)
+Definition expected_call (next : N) (o : op) : option scall :=
+  match o with
+  | OAttach u a AfOther => None
+  | OAttach u a AfNil => Some (SAttach (new_fid next) NOFID u a)
+  | OAttach u a (AfFile afid) => Some (SAttach (new_fid next) afid u a)
+  | OWalk e names =>
+      if Z.ltb (snd (normalize_path names)) 0 then None
+      else Some (SWalk (c_fid e) (new_fid next) (fst (normalize_path names)))
+  | OOpen e mode => Some (SOpen (c_fid e) mode)
+  | OOpenDir e => Some (SOpen (c_fid e) OREAD)
+  | OCreate e name perm mode =>
+      if create_name_refused name || negb (is_dir e) then None
+      else Some (SCreate (c_fid e) name perm mode)
+  | OStat e => Some (SStat (c_fid e))
+  | OWStat e d => Some (SWStat (c_fid e) d)
+  | OClunk e => Some (SClunk (c_fid e))
+  | ORemove e => Some (SRemove (c_fid e))
+  end.
+
+(* the entry an operation works on, and the fid a call works on *)
+Definition op_ent (o : op) : option cEnt :=
+  match o with
+  | OAttach _ _ _ => None
+  | OWalk e _ | OOpen e _ | OOpenDir e | OCreate e _ _ _ | OStat e | OWStat e _ | OClunk e | ORemove e => Some e
+  end.
+Definition call_fid (c : scall) : N :=
+  match c with
+  | SAttach f _ _ _ | SWalk f _ _ | SOpen f _ | SCreate f _ _ _ | SStat f | SWStat f _ | SClunk f | SRemove f => f
+  end.
+
+(* the entry a result hands to the caller *)
+Definition res_entry (r : cres) : option cEnt :=
+  match r with CEnt e | CWalk _ e | CCreated e _ => Some e | _ => None end.
+
+(* does the operation take a fid from the allocator *)
+Definition allocates (o : op) : bool :=
+  match o with
+  | OAttach _ _ _ => true
+  | OWalk _ names => negb (Z.ltb (snd (normalize_path names)) 0)
+  | _ => false
+  end.
+Definition n_allocs (ops : list (op * sres)) : nat := length (filter (fun oa => allocates (fst oa)) ops).
+
+Definition call_of (x : option scall * cres * N) : option scall := fst (fst x).
+Definition res_of (x : option scall * cres * N) : cres := snd (fst x).
+Definition next_of (x : option scall * cres * N) : N := snd x.
+
+(* ---- forwarding ---- *)
+Lemma forward msize next o ans : call_of (do_op msize next o ans) = expected_call next o.
+Proof.
+  destruct o as [u a af|e names|e m|e|e name perm mode|e|e d|e|e]; unfold call_of; cbn [do_op expected_call].
+  - destruct af; reflexivity.
+  - destruct (normalize_path names) as [steps bsp]. cbn [fst snd]. destruct (Z.ltb bsp 0); reflexivity.
+  - reflexivity.
+  - reflexivity.
+  - destruct (create_name_refused name); [reflexivity|]. cbn [orb]. destruct (negb (is_dir e)); reflexivity.
+  - reflexivity.
+  - reflexivity.
+  - reflexivity.
+  - reflexivity.
+Qed.
+
+Lemma forward_own_fid msize next o ans e c :
+  op_ent o = Some e -> call_of (do_op msize next o ans) = Some c -> call_fid c = c_fid e.
+Proof.
+  rewrite forward. intros He Hc.
+  destruct o as [u a af|e' names|e' m|e'|e' name perm mode|e'|e' d|e'|e']; cbn [op_ent] in He;
+    try discriminate; inversion He; subst; cbn [expected_call] in Hc.
+  - destruct (Z.ltb (snd (normalize_path names)) 0); inversion Hc; reflexivity.
+  - inversion Hc; reflexivity.
+  - inversion Hc; reflexivity.
+  - destruct (create_name_refused name || negb (is_dir e)); inversion Hc; reflexivity.
+  - inversion Hc; reflexivity.
+  - inversion Hc; reflexivity.
+  - inversion Hc; reflexivity.
+  - inversion Hc; reflexivity.
+Qed.
+
+(* ---- walk ---- *)
+Lemma walk_ok msize next e names steps bsp qids :
+  normalize_path names = (steps, bsp) -> (0 <= bsp)%Z -> length qids = length steps ->
+  do_op msize next (OWalk e names) (AWalk qids)
+  = (Some (SWalk (c_fid e) (new_fid next) steps),
+     CWalk qids {| c_fid := new_fid next; c_qid := last qids (c_qid e) |},
+     new_fid next).
+Proof.
+  intros Hn Hb Hl. cbn [do_op]. rewrite Hn.
+  destruct (Z.ltb_spec bsp 0); [lia|]. rewrite Hl, Nat.eqb_refl. reflexivity.
+Qed.
+
+(* a failed or partial walk: no entry for the caller, nothing bound on the server, nothing
+   added to what the caller holds; the fid that was set aside is simply never used *)
+Lemma walk_fail msize st e names steps bsp ans :
+  normalize_path names = (steps, bsp) -> (0 <= bsp)%Z ->
+  (ans = AErr \/ exists qids, ans = AWalk qids /\ length qids <> length steps) ->
+  let '(st', c, r) := step msize st (OWalk e names) ans in
+  c = Some (SWalk (c_fid e) (new_fid (s_next st)) steps)
+  /\ res_entry r = None
+  /\ (r = CErr \/ exists qids, ans = AWalk qids /\ r = CPartial qids)
+  /\ s_srv st' = s_srv st
+  /\ s_live st' = s_live st.
+Proof.
+  intros Hn Hb Ha. unfold step. cbn [do_op]. rewrite Hn.
+  destruct (Z.ltb_spec bsp 0); [lia|].
+  destruct Ha as [->|(qids & -> & Hne)].
+  - cbn. repeat split; auto.
+  - apply Nat.eqb_neq in Hne. cbn [srv_step live_step s_srv s_live]. rewrite Hne.
+    repeat split; eauto.
+Qed.
+
+(* ---- the server's table is exactly the fids of the entries the caller holds ---- *)
+Lemma map_fid_replace live f e' : c_fid e' = f ->
+  map c_fid (map (fun x => if c_fid x =? f then e' else x) live) = map c_fid live.
+Proof.
+  intros He. induction live as [|x l IH]; simpl; auto. rewrite IH. f_equal.
+  destruct (N.eqb_spec (c_fid x) f); congruence.
+Qed.
+
+Lemma map_fid_filter live f :
+  map c_fid (filter (fun x => negb (c_fid x =? f)) live) = unbind f (map c_fid live).
+Proof.
+  unfold unbind. induction live as [|x l IH]; simpl; auto.
+  destruct (c_fid x =? f); simpl; rewrite IH; reflexivity.
+Qed.
+
+Definition table_inv (st : sys) : Prop := s_srv st = map c_fid (s_live st).
+
+Lemma step_table msize st o ans : table_inv st -> table_inv (fst (fst (step msize st o ans))).
+Proof.
+  unfold table_inv, step. intros H.
+  destruct o as [u a af|e names|e m|e|e name perm mode|e|e d|e|e]; cbn [do_op].
+  - destruct af; cbn [fst s_srv s_live srv_step live_step]; auto; destruct ans; simpl; congruence.
+  - destruct (normalize_path names) as [steps bsp]. destruct (Z.ltb bsp 0); cbn [fst s_srv s_live srv_step live_step]; auto.
+    destruct ans; auto. destruct (Nat.eqb (length qids) (length steps)); simpl; congruence.
+  - cbn [fst s_srv s_live srv_step live_step]. destruct ans; auto.
+  - cbn [fst s_srv s_live srv_step live_step]. destruct ans; auto;
+    try (destruct (Z.ltb (io_unit msize iounit) 0); auto).
+  - destruct (create_name_refused name); [cbn; auto|]. destruct (negb (is_dir e)); [cbn; auto|].
+    cbn [fst s_srv s_live srv_step live_step]. destruct ans; auto.
+    rewrite map_fid_replace; auto.
+  - cbn [fst s_srv s_live srv_step live_step]. destruct ans; auto.
+  - cbn [fst s_srv s_live srv_step live_step]. destruct ans; auto.
+  - cbn [fst s_srv s_live srv_step live_step]. rewrite H. destruct ans; rewrite map_fid_filter; reflexivity.
+  - cbn [fst s_srv s_live srv_step live_step]. rewrite H. destruct ans; rewrite map_fid_filter; reflexivity.
+Qed.
+
+Lemma run_table msize ops : forall st, table_inv st -> table_inv (run msize st ops).
+Proof.
+  induction ops as [|[o a] r IH]; intros st H; cbn [run]; auto. apply IH. apply step_table; auto.
+Qed.
+
+Lemma table msize ops : s_srv (run msize sys0 ops) = map c_fid (s_live (run msize sys0 ops)).
+Proof. apply (run_table msize ops sys0). reflexivity. Qed.
+
+Lemma no_leak msize ops : s_live (run msize sys0 ops) = [] -> s_srv (run msize sys0 ops) = [].
+Proof. intros H. rewrite table, H. reflexivity. Qed.
+
+(* ---- distinct fids, below the wrap of the uint32 allocator ---- *)
+Definition fid_inv (st : sys) : Prop :=
+  Forall (fun e => 1 <= c_fid e <= s_next st) (s_live st) /\ NoDup (map c_fid (s_live st)).
+
+Lemma new_fid_small next : next + 1 < 2 ^ 32 -> new_fid next = next + 1.
+Proof. intros H. unfold new_fid. apply N.mod_small. exact H. Qed.
+
+Lemma next_step msize next o ans : next + 1 < 2 ^ 32 ->
+  next_of (do_op msize next o ans) = if allocates o then next + 1 else next.
+Proof.
+  intros Hs. unfold next_of.
+  destruct o as [u a af|e names|e m|e|e name perm mode|e|e d|e|e]; cbn [do_op allocates]; try reflexivity.
+  - destruct af; cbn [snd]; apply new_fid_small; auto.
+  - destruct (normalize_path names) as [steps bsp]. cbn [snd]. destruct (Z.ltb bsp 0); cbn [snd negb]; auto.
+    apply new_fid_small; auto.
+  - destruct (create_name_refused name); [reflexivity|]. destruct (negb (is_dir e)); reflexivity.
+Qed.
+
+Lemma Forall_weaken_next (live : list cEnt) a b : a <= b ->
+  Forall (fun e => 1 <= c_fid e <= a) live -> Forall (fun e => 1 <= c_fid e <= b) live.
+Proof. intros Hab H. eapply Forall_impl; [|exact H]. intros e He. cbv beta in *. lia. Qed.
+
+Lemma NoDup_map_filter {A B} (f : A -> B) (p : A -> bool) l : NoDup (map f l) -> NoDup (map f (filter p l)).
+Proof.
+  induction l as [|x l IH]; simpl; intros H; auto. inversion H as [|? ? Hx Hl]; subst.
+  destruct (p x); simpl; auto. constructor; auto.
+  intros Hin. apply Hx. apply in_map_iff in Hin. destruct Hin as (y & Hy & Hf).
+  apply in_map_iff. exists y. split; auto. apply filter_In in Hf. tauto.
+Qed.
+
+Lemma fresh_not_in (live : list cEnt) next :
+  Forall (fun e => 1 <= c_fid e <= next) live -> ~ In (next + 1) (map c_fid live).
+Proof.
+  intros H Hin. apply in_map_iff in Hin. destruct Hin as (e & He & Hin).
+  rewrite Forall_forall in H. specialize (H e Hin). lia.
+Qed.
+
+Lemma step_fid msize st o ans : s_next st + 1 < 2 ^ 32 -> fid_inv st ->
+  fid_inv (fst (fst (step msize st o ans)))
+  /\ s_next (fst (fst (step msize st o ans))) = if allocates o then s_next st + 1 else s_next st.
+Proof.
+  intros Hs [Hr Hd]. unfold step.
+  pose proof (next_step msize (s_next st) o ans Hs) as Hn. unfold next_of in Hn.
+  destruct (do_op msize (s_next st) o ans) as [[c r] next'] eqn:Hop. cbn [fst snd s_next s_live] in *.
+  split; [|exact Hn]. unfold fid_inv. cbn [s_next s_live].
+  assert (Hle : s_next st <= next') by (rewrite Hn; destruct (allocates o); lia).
+  pose proof (Forall_weaken_next _ _ _ Hle Hr) as Hr'.
+  destruct o as [u a af|e names|e m|e|e name perm mode|e|e d|e|e]; cbn [do_op] in Hop.
+  - (* attach *)
+    cbn [allocates] in *.
+    destruct af; inversion Hop; subst; cbn [live_step]; rewrite ?(new_fid_small _ Hs) in *;
+      try (split; assumption);
+      (destruct ans; try (split; assumption);
+       split; [constructor; [cbn; lia|assumption]
+              |cbn [map c_fid]; constructor; auto; apply fresh_not_in; auto]).
+  - (* walk *)
+    cbn [allocates] in *. destruct (normalize_path names) as [steps bsp]. cbn [snd] in *.
+    destruct (Z.ltb bsp 0); inversion Hop; subst; cbn [live_step negb] in *;
+      rewrite ?(new_fid_small _ Hs) in *; try (split; assumption).
+    destruct ans; try (split; assumption).
+    destruct (Nat.eqb (length qids) (length steps)); try (split; assumption).
+    split; [constructor; [cbn; lia|assumption]|].
+    cbn [map c_fid]. constructor; auto. apply fresh_not_in; auto.
+  - inversion Hop; subst. destruct ans; cbn [live_step]; split; assumption.
+  - inversion Hop; subst. destruct ans; cbn [live_step]; try (split; assumption);
+    try (destruct (Z.ltb (io_unit msize iounit) 0); split; assumption).
+  - (* create *)
+    destruct (create_name_refused name); [inversion Hop; subst; split; assumption|].
+    destruct (negb (is_dir e)); [inversion Hop; subst; split; assumption|].
+    inversion Hop; subst. destruct ans; cbn [live_step]; try (split; assumption).
+    split.
+    + apply Forall_forall. intros x Hx. apply in_map_iff in Hx. destruct Hx as (y & Hy & Hin).
+      rewrite Forall_forall in Hr'. specialize (Hr' y Hin).
+      destruct (N.eqb_spec (c_fid y) (c_fid e)); subst; cbn [c_fid]; lia.
+    + rewrite map_fid_replace; auto.
+  - inversion Hop; subst. destruct ans; cbn [live_step]; split; assumption.
+  - inversion Hop; subst. destruct ans; cbn [live_step]; split; assumption.
+  - inversion Hop; subst. cbn [live_step]. split.
+    + apply Forall_forall. intros x Hx. apply filter_In in Hx. rewrite Forall_forall in Hr'. apply Hr'. tauto.
+    + apply NoDup_map_filter; auto.
+  - inversion Hop; subst. cbn [live_step]. split.
+    + apply Forall_forall. intros x Hx. apply filter_In in Hx. rewrite Forall_forall in Hr'. apply Hr'. tauto.
+    + apply NoDup_map_filter; auto.
+Qed.
+
+Lemma n_allocs_cons o a r : n_allocs ((o, a) :: r) = ((if allocates o then 1 else 0) + n_allocs r)%nat.
+Proof. unfold n_allocs. simpl. destruct (allocates o); reflexivity. Qed.
+
+Lemma run_fid msize ops : forall st,
+  fid_inv st -> s_next st + N.of_nat (n_allocs ops) < 2 ^ 32 - 1 ->
+  fid_inv (run msize st ops) /\ s_next (run msize st ops) = s_next st + N.of_nat (n_allocs ops).
+Proof.
+  induction ops as [|[o a] r IH]; intros st Hi Hb.
+  - cbn [run]. unfold n_allocs; simpl. split; auto. lia.
+  - cbn [run]. rewrite n_allocs_cons in *.
+    destruct (allocates o) eqn:Ea.
+    + assert (Hs : s_next st + 1 < 2 ^ 32) by lia.
+      destruct (step_fid msize st o a Hs Hi) as [Hi' Hn']. rewrite Ea in Hn'.
+      destruct (IH _ Hi') as [H1 H2]; [lia|]. split; auto. lia.
+    + assert (Hs : s_next st + 1 < 2 ^ 32) by lia.
+      destruct (step_fid msize st o a Hs Hi) as [Hi' Hn']. rewrite Ea in Hn'.
+      destruct (IH _ Hi') as [H1 H2]; [lia|]. split; auto. lia.
+Qed.
+
+Lemma distinct msize ops :
+  N.of_nat (n_allocs ops) < 2 ^ 32 - 1 ->
+  NoDup (map c_fid (s_live (run msize sys0 ops)))
+  /\ Forall (fun e => c_fid e <> NOFID) (s_live (run msize sys0 ops)).
+Proof.
+  intros Hb. destruct (run_fid msize ops sys0) as [[Hr Hd] Hn].
+  - split; constructor.
+  - cbn [sys0 s_next]. lia.
+  - split; auto. eapply Forall_impl; [|exact Hr]. intros e He. cbv beta in He.
+    cbn [sys0 s_next] in Hn. unfold NOFID. lia.
+Qed.
